@@ -151,12 +151,12 @@ SPEC = dict(
         dict(name='op_complete', harness='h_op_complete', enforce='op_complete', props=['C19', 'C02']),
         dict(name='op_callback_impl', harness='h_op_callback_impl', enforce='op_callback_impl', props=['C19', 'C02']),
         dict(name='op_start', harness='h_op_start', enforce='op_start', defines=['VF_START_BODY_DOES_NOT_THROW'], props=['C19', 'C02']),
-        dict(name='op_start_body_throws', harness='h_op_start', enforce='op_start', tier='thorough', props=['C19', 'C02']),
+        dict(name='op_start_body_throws', harness='h_op_start', enforce='op_start', props=['C19', 'C02']),
         dict(name='stop_callback', harness='h_stop_callback', enforce='stop_callback_call', props=['C19', 'C02']),
         dict(name='op_dtor', harness='h_op_dtor', enforce='op_dtor', props=['C19', 'C02']),
         dict(name='safe_callback_expired', harness='h_safe_callback', enforce='safe_callback_call', defines=['VF_STUB_CALLBACK_IMPL', 'VF_CELL_EXPIRED'], props=['C19', 'C02']),
         dict(name='safe_callback_live', harness='h_safe_callback', enforce='safe_callback_call', defines=['VF_STUB_CALLBACK_IMPL', 'VF_OP_PROTECTED'], props=['C19']),
-        dict(name='safe_callback_race', harness='h_safe_callback', enforce='safe_callback_call', defines=['VF_STUB_CALLBACK_IMPL'], tier='thorough', props=['C19', 'C02']),
+        dict(name='safe_callback_race', harness='h_safe_callback', enforce='safe_callback_call', defines=['VF_STUB_CALLBACK_IMPL'], props=['C19', 'C02']),
         dict(name='unsafe_callback', harness='h_unsafe_callback', enforce='unsafe_callback_call', defines=['VF_STUB_CALLBACK_IMPL'], props=['C19']),
         dict(name='wrapper_complete', harness='h_wrapper_complete', enforce='wrapper_complete', props=['C19']),
         dict(name='raw_connect_rvalue', harness='h_raw_connect_rvalue', enforce='raw_connect_rvalue', props=['C19']),
